@@ -782,3 +782,37 @@ macro_rules! vproof_zstub {
     };
 }
 pub(crate) use vproof_zstub;
+
+// ---------------------------------------------------------------------------------------
+// logging variants: same contract, but the (argument, result) pairs are recorded so that a
+// harness can state the acceptance test of a rejection step over the *same* libm values the
+// code saw (uninterpreted-function style; DESIGN §5 "functional stubs")
+// ---------------------------------------------------------------------------------------
+pub static mut LN_ARG: [f64; 4] = [0.0; 4];
+pub static mut LN_RES: [f64; 4] = [0.0; 4];
+pub static mut LN_N: usize = 0;
+pub fn c_ln64_log(x: f64) -> f64 {
+    let r = c_ln64(x);
+    unsafe {
+        if LN_N < 4 {
+            LN_ARG[LN_N] = x;
+            LN_RES[LN_N] = r;
+        }
+        LN_N += 1;
+    }
+    r
+}
+pub static mut EXP_ARG: [f64; 4] = [0.0; 4];
+pub static mut EXP_RES: [f64; 4] = [0.0; 4];
+pub static mut EXP_N: usize = 0;
+pub fn c_exp64_log(x: f64) -> f64 {
+    let r = c_exp64(x);
+    unsafe {
+        if EXP_N < 4 {
+            EXP_ARG[EXP_N] = x;
+            EXP_RES[EXP_N] = r;
+        }
+        EXP_N += 1;
+    }
+    r
+}
